@@ -267,17 +267,33 @@ int32_t tls13FindSessionPsk(ssl_t *ssl,
     {
 #  if defined(USE_SERVER_SIDE_SSL) && defined(USE_STATELESS_SESSION_TICKETS)
         psSessionTicketKeys_t *key;
+        psSessionTicketKeys_t keyCopy;
+        int32_t rc;
 
         if (idLen >= 16 + 12 + 16)
         {
+            /* The key list is shared with other sessions and may be changed
+               by key rotation: take a private copy of the matching key under
+               the ticket lock and decrypt with the copy. */
+            matrixSslSessTicketLock();
             key = ssl->keys->sessTickets;
             while (key)
             {
                 if (!Memcmp(id, key->name, 16))
                 {
-                    return tls13DecryptTicket(ssl, key, id, idLen, pskOut);
+                    Memcpy(&keyCopy, key, sizeof(keyCopy));
+                    break;
                 }
                 key = key->next;
+            }
+            rc = (key != NULL);
+            matrixSslSessTicketUnlock();
+            if (rc)
+            {
+                keyCopy.next = NULL;
+                rc = tls13DecryptTicket(ssl, &keyCopy, id, idLen, pskOut);
+                memzero_s(&keyCopy, sizeof(keyCopy));
+                return rc;
             }
         }
 #  endif
